@@ -9,7 +9,7 @@ From Coq Require Import ZArith List Bool Floats Reals.
 From Clip Require Import base.Geom base.FloatModel model.PathUtils.
 From Clip Require Import proofs.PathUtilsBase proofs.PathUtilsFloat proofs.PathUtilsTrim proofs.PathUtilsFlags
   proofs.PathUtilsSimplify proofs.PathUtilsRdp proofs.PathUtilsMisc proofs.PathUtilsEllipse proofs.PathUtilsNoNan
-  proofs.PathUtilsInst.
+  proofs.PathUtilsNearGen proofs.PathUtilsInst.
 Import ListNotations.
 
 (* ---------------------------------------------------------------- TrimCollinear *)
@@ -141,6 +141,34 @@ Theorem C20_strip_near : forall maxd p closed,
     (closed = true -> (1 < length r)%nat -> ~ near maxd (last r (0, 0)%Z) (hd (0, 0)%Z r)).
 Proof. exact strip_near_equal_spec. Qed.
 Print Assumptions C20_strip_near.
+
+(* StripNearEqual<T> for any point type T and NearEqual function (Path64, PathD, ...): the closed clean-up pops EVERY
+   trailing point that is near the first one -- the result is the prefix [firstn k] of the forward pass such that all
+   dropped points (index >= k) are near the first point and the last kept one is not (or only the first point is left) *)
+Theorem C20_strip_near_generic : forall (P : Type) (nearb : P -> P -> bool) p closed (d : P),
+  exists r, strip_near_equal_g P nearb p closed = Ok r /\
+    sublist r p /\ no_adj_g P (fun x y => nearb y x = true) r /\ hd_error r = hd_error p /\
+    (closed = false -> forall x, In x p -> In x r \/ exists k, In k p /\ nearb x k = true) /\
+    (closed = true -> (1 < length r)%nat -> nearb (last r d) (hd d r) = false) /\
+    (closed = true -> forall first t, p = first :: t ->
+       let r0 := first :: strip_near_from_g P nearb first t in
+       exists k, r = firstn k r0 /\ (1 <= k <= length r0)%nat /\
+                 forall j, (k <= j < length r0)%nat -> nearb (nth j r0 d) first = true).
+Proof. exact strip_near_equal_g_spec. Qed.
+Print Assumptions C20_strip_near_generic.
+
+(* the int64 model used by C20_strip_near is the generic one with NearEqual<int64_t>; the PathD model is the generic one
+   with NearEqual<double> by definition (strip_near_equal_d) *)
+Theorem C20_strip_near_is_generic : forall p maxd closed,
+  strip_near_equal p maxd closed = strip_near_equal_g pt (fun x y => near_equal x y maxd) p closed.
+Proof. exact strip_near_equal_is_g. Qed.
+Print Assumptions C20_strip_near_is_generic.
+
+(* Paths overloads (StripNearEqual, StripDuplicates): one result per input path, each the single-path result *)
+Theorem C20_strip_paths : forall (A B : Type) (f : A -> res B) l r, map_res f l = Ok r ->
+  length r = length l /\ forall i x, nth_error l i = Some x -> exists y, nth_error r i = Some y /\ f x = Ok y.
+Proof. exact (@map_res_Ok). Qed.
+Print Assumptions C20_strip_paths.
 
 Theorem C20_translate : forall p dx dy,
   length (translate_path p dx dy) = length p /\
